@@ -48,6 +48,12 @@ def make_spec(run_seed, tier, prop, choice_weights=None, forced_prob=0.0, branch
         if alt is not None:
             text = alt
             tags = set(tags) | {"respelled"}
+    rsp = random.Random(run_seed ^ 0x5BAC)
+    if "corpus" not in tags and rsp.random() < 0.15:
+        from .. import siblings
+
+        text = siblings.respace(rsp, text)
+        tags = set(tags) | {"respaced"}
     warmup = None
     if rs.random() < 0.15:
         from .. import siblings
@@ -294,7 +300,7 @@ def execute(spec, props=None):
         "entry:" + spec.get("entry", "molecule"): 1,
     })
     for t in spec.get("tags", []):
-        if t.startswith(("arch:", "family:", "start:", "end:", "weights:")) or t in ("corpus", "hub", "connector", "respelled"):
+        if t.startswith(("arch:", "family:", "start:", "end:", "weights:")) or t in ("corpus", "hub", "connector", "respelled", "respaced"):
             stats["tag:" + t] = stats.get("tag:" + t, 0) + 1
     if out.exc is not None:
         stats["exception:" + type(out.exc).__name__] = 1
